@@ -10,7 +10,6 @@ NOT_APPLICABLE = {
  "C18": "Differential against the host CPU executing native code; the oracle is hardware, not a specification a verifier can consume.",
  "C19": "Differential against a reference emulator that is not present; no machine-readable ISA specification in the sandbox.",
  "C20": "Agreement of three JIT back ends (LLVM cannot even run: no llvmlite) through generated C, a C extension and CPython; whole-system, cross-language.",
- "C22": "Self-modifying-code history property spanning vm_mngr.c write tracking, the C execution loop and Python invalidation; not a single-call or single-structure property.",
  "C41": "Dynamic symbolic execution of x86 programs under a jitter with a solver in the loop; whole-system across Python, C and z3.",
 }
 
